@@ -697,7 +697,7 @@ impl Property for C14 {
     const ID: &'static str = "C14";
     const JUDGES_CRASHES: bool = true;
     const LEVEL: &'static str = "exploration";
-    const RULE: &'static str = "seeded operation histories (up to 64 operations: peek/read/signed/skip at widths 0..=66 into 7 integer types, read_u8, read_vlc over generated prefix-free tables, recognize_start_code, commit, nested with_transaction / with_transaction_union / with_lookahead ending Ok/Err/None with and without `?` propagation) over sources of 0..48 bytes (planted start codes at all bit phases, zero and 0xFF runs) delivered in pieces during the run, with EINTR and hard I/O errors armed on source reads; plus (a) a systematic sweep of every start phase x every operation x every width 0..=66 x seven types and (b) a small-scope ENUMERATION of every sequence of 2 (quick) / 3 (thorough) operations from a 14-operation alphabet at all 8 start phases over 3 short sources, each on a fresh reader. evaluations = reader operations executed and compared with the bit-vector model. A history is non-trivial if it contains at least one rollback (failed transaction, None union, look-ahead) followed by a successful read of >= 1 bit; distinct by operation sequence.";
+    const RULE: &'static str = "seeded operation histories (up to 64 operations: peek/read/signed/skip at widths 0..=66 into 7 integer types, read_u8, read_vlc over generated prefix-free tables, recognize_start_code, commit, nested with_transaction / with_transaction_union / with_lookahead ending Ok/Err/None with and without `?` propagation) over sources of 0..48 bytes (planted start codes at all bit phases, zero and 0xFF runs) delivered in pieces during the run (one history in 1000: a source of 66-136 KB, beginning with look-aheads / failing transactions that buffer more than 64 KiB or consume more than 4 KiB), with EINTR and hard I/O errors armed on source reads; plus (a) a systematic sweep of every start phase x every operation x every width 0..=66 x seven types and (b) a small-scope ENUMERATION of every sequence of 2 (quick) / 3 (thorough) operations from a 14-operation alphabet at all 8 start phases over 3 short sources, each on a fresh reader. evaluations = reader operations executed and compared with the bit-vector model. A history is non-trivial if it contains at least one rollback (failed transaction, None union, look-ahead) followed by a successful read of >= 1 bit; distinct by operation sequence.";
     fn runs(tier: Tier) -> u64 {
         match tier {
             Tier::Quick => 300_000,
@@ -705,22 +705,43 @@ impl Property for C14 {
         }
     }
     fn generate(rng: &mut Rng, _tier: Tier) -> ReaderPlan {
-        let nsrc = match rng.below(12) {
+        // one history in 1000 runs over a HUGE source (66-136 KB) and begins with a long
+        // look-ahead or failing transaction that pulls more than 64 KiB into the reader's
+        // buffer, and/or a failing transaction that consumes more than 4 KiB: buffer
+        // management thresholds must not change what the reader returns
+        let huge = rng.chance(1, 1000);
+        let nsrc = if huge { 66_000 + rng.usize(70_000) } else { match rng.below(12) {
             0 | 1 => 0,
             2 | 3 => rng.usize(4),
             4 => 100 + rng.usize(700), // room for skips of hundreds of bits that run dry part-way
             _ => rng.usize(49),
-        };
+        } };
         let mut src = gen_source_bytes(rng, nsrc);
+        let nsrc_note = nsrc;
         let ntables = 1 + rng.usize(3);
         let tables: Vec<Vec<TEntry>> = (0..ntables).map(|_| gen_table(rng)).collect();
         let mut ops = Vec::new();
         // initial delivery
-        let first = if rng.chance(2, 3) { src.len() } else { rng.usize(src.len() + 1) };
+        let first = if huge || rng.chance(2, 3) { src.len() } else { rng.usize(src.len() + 1) };
         let head: Vec<u8> = src.drain(..first).collect();
         ops.push(Op::Deliver { bytes: head });
         if rng.chance(1, 2) {
             ops.push(Op::Skip { n: rng.below(8) as u32 });
+        }
+        if huge {
+            for _ in 0..1 + rng.usize(2) {
+                let body = match rng.below(3) {
+                    0 => vec![Op::Skip { n: ((65_600 + rng.usize(nsrc - 65_900)) * 8 + rng.usize(8)) as u32 }, Op::Peek { ty: Ty::U16, n: 9 }],
+                    1 => vec![Op::StartCode { in_error: true }],
+                    _ => vec![Op::Skip { n: ((4_096 + rng.usize(9_000)) * 8 + rng.usize(8)) as u32 }, Op::Read { ty: Ty::U8, n: 5 }],
+                };
+                ops.push(if rng.bool() { Op::Look { body } } else { Op::Txn { body, end: End::Err, propagate: false } });
+                ops.push(Op::Read { ty: Ty::U16, n: 1 + rng.below(15) as u32 });
+                if rng.bool() {
+                    ops.push(Op::Commit);
+                    ops.push(Op::Peek { ty: Ty::U32, n: 32 });
+                }
+            }
         }
         let mut budget = 4 + rng.usize(60);
         while budget > 0 {
